@@ -216,8 +216,9 @@ impl LruManager {
             self.key_map.len()
         );
 
-        // Delete previous generation file
-        if self.prev_generation != 0 {
+        // Delete previous generation file (never the one just written: after
+        // load_from_disk of the previous generation both numbers are equal)
+        if self.prev_generation != 0 && self.prev_generation != self.generation {
             let prev_path = lru_file_path(&self.data_dir, self.prev_generation);
             if let Err(e) = tokio::fs::remove_file(&prev_path).await
                 && e.kind() != std::io::ErrorKind::NotFound
